@@ -168,4 +168,8 @@ def toStringIn (signed : Bool) (a : Int) (d : Denom) : Bytes :=
 def toStringWithDenomination (signed : Bool) (a : Int) (d : Denom) : Bytes :=
   toStringIn signed a d ++ [0x20] ++ displayOf d
 
+/-- `Display for Amount` / `Display for SignedAmount` (amount.rs 414-419, 729-734): `fmt_value_in(f, Denomination::Monero)`
+then `" {}"` of `Denomination::Monero` — the denomination is hard-wired -/
+def display (signed : Bool) (a : Int) : Bytes := toStringWithDenomination signed a .Monero
+
 end Monero.AmtText
